@@ -7,7 +7,10 @@ Three ingredients (see tools/README.md):
     path), with tolerance on real parameters (constructors of every built-in class);
   * direct search on the real code: execution == Kraus map of the channel's own operators,
     generic path == fast path, trace preservation / complete positivity, Choi / Liouville /
-    Pauli-Liouville describe the executed map, representation queries change nothing.
+    Pauli-Liouville describe the executed map, representation queries change nothing;
+    boundary parameter regimes of every class (props/C04_boundary.py): execution (three ways)
+    == documented closed form == own Kraus map == generic path == own Liouville / Choi action,
+    input array unchanged.
 """
 from __future__ import annotations
 
@@ -356,13 +359,18 @@ def instances(ctx):
             t1 = u(0.3, 2)
             thermal = [(1.0, 0.5, 0.3, 0.2), (1.0, 1.0, 0.3, 0.4), (0.7, 0.4, 0.0, 0.5), (0.9, 0.6, 0.25), (1.0, 0.8, 0.5, 1.0),
                        (t1, min(t1, u(0.05, t1)), u(0, 2), u(0, 1)),
-                       (0.5, 0.8, 0.3, 0.2), (0.5, 1.0, 0.3, 0.2), (0.6, 0.9, 0.4), (0.4, 0.7, 0.0, 0.3), (t1, min(2 * t1, u(t1 * 1.01, 2 * t1)), u(0, 2), u(0, 1))]
+                       # corners of the regime t1 >= t2: pure dephasing (exp(-t/T1) == 1 exactly), no excited population
+                       (math.inf, 2.0, 1.0), (math.inf, 0.7, 0.4, 1.0), (1e20, 0.7, 0.4, 0.3), (math.inf, math.inf, 1.0, 0.5), (1.0, 0.5, 0.3, 0.0),
+                       (0.5, 0.8, 0.3, 0.2), (0.5, 1.0, 0.3, 0.2), (0.6, 0.9, 0.4), (0.4, 0.7, 0.0, 0.3), (t1, min(2 * t1, u(t1 * 1.01, 2 * t1)), u(0, 2), u(0, 1)),
+                       # edge of the admissible region t2 = 2 t1, excited population 1
+                       (0.6, 1.2, 0.9, 1.0)]
             for ps in thermal:
                 eta = ps[3] if len(ps) == 4 else 0.0
                 args = f"{n} {q} {fbits(ps[0])} {fbits(ps[1])} {fbits(ps[2])} {fbits(eta)}"
                 reg = regime("ThermalRelaxationChannel", ps)
                 ll = [("closed", f"FTHERML {args}"), ("ctor", f"FTHERMC {args}")]
-                out.append(("ThermalRelaxationChannel", reg, f"gates.ThermalRelaxationChannel({q}, {list(ps)!r})", n, ll))
+                plist = ", ".join("np.inf" if x == math.inf else repr(x) for x in ps)
+                out.append(("ThermalRelaxationChannel", reg, f"gates.ThermalRelaxationChannel({q}, [{plist}])", n, ll))
         for k in range(1, min(n, 3) + 1):
             for qs in placements(n, k):
                 mx = 4**k / (4**k - 1)
@@ -1361,6 +1369,13 @@ def run(ctx):
     readout_suite(ctx)
     pauli_k_suite(ctx)
     liouville_exec_suite(ctx, insts, users)
+    try:
+        from props import C04_boundary
+        C04_boundary.boundary_suite(ctx)
+    except Exception as e:  # noqa: BLE001
+        import traceback
+        ctx.log(traceback.format_exc()[-1800:])
+        ctx.ob("C04_search_boundary", False, "search", f"{type(e).__name__}: {e}"[:300])
     ctx.assumptions += [
         "complete positivity is structural in the model (non-negative combination of K rho K^dagger); on the real code it is checked numerically (Choi matrix of the executed map PSD)",
         "depolarizing fast path = Pauli-twirl Kraus map is proved for every k and every ordered duplicate-free tuple (T04_depolarizing_fast_eq_kraus_full_proved); both sides are tied exactly to the real code for k<=3 on every ordered tuple of n<=4 (C04_corr_depol_k)",
